@@ -200,7 +200,8 @@ pub fn run_child() -> i32 {
     entrait_macros::verif::install_hook(hook);
 
     let mut log: Vec<String> = Vec::with_capacity(256);
-    log.push(format!("{{\"ev\":\"disk\",\"private_mounts\":{private_fs}}}"));
+    let stderr_tty = unsafe { libc::isatty(2) } == 1;
+    log.push(format!("{{\"ev\":\"disk\",\"private_mounts\":{private_fs},\"stderr_tty\":{stderr_tty}}}"));
     let programs = Arc::new(programs);
     let job_progs: Arc<Vec<usize>> = Arc::new(epoch.jobs.iter().map(|j| j.prog).collect());
 
